@@ -3,7 +3,6 @@
 package client
 
 import (
-	"bufio"
 	"context"
 )
 
@@ -130,7 +129,8 @@ func VerifC08Commands() {
 	cfg := &Config{SplitLen: sl, Flood: true, QuitMessage: vArg("quitmsg")}
 	w := vNewWire()
 	conn := vBareConn(cfg, false)
-	conn.io = bufio.NewReadWriter(bufio.NewReader(w), bufio.NewWriter(w))
+	conn.sock = w
+	conn.postConnect(nil, false) // the connection's reader / writer, however the tree under test sets them up
 	verb, anyVerb := vC08Call(conn)
 	lines := vDrain(conn)
 	vAssert(len(lines) >= 1, "queued-something")
@@ -210,6 +210,51 @@ func VerifC08Wire() {
 		vAssert(vWireVerbs(all, verb), "own-verb")
 	}
 	cancel()
+	conn.Close()
+	vRunPending()
+	vReach("end")
+}
+
+
+// VerifC08Reconnect: a socket write of the first connection is cut short by an error in the
+// middle of a caller-supplied text (a connection reset mid-send); the connection ends. On the
+// next connection of the same client the server end again sees nothing but whole lines of
+// the verbs that were called there (NICK / USER from the registration, then NICK): no left-over
+// of the earlier call's text starts a line.
+func VerifC08Reconnect() {
+	cfg := NewConfig("me")
+	cfg.Server, cfg.Proxy, cfg.PingFreq, cfg.Flood = "srv:1", "vtest://p", 0, true
+	w1, w2 := vNewLiveWire(), vNewLiveWire()
+	vInstallDialer(&vDialer{wires: []*vWire{w1, w2}})
+	conn := Client(cfg)
+	err := conn.Connect()
+	vAssume(err == nil)
+	vRunPending()
+	text := "hello " + vStr("tail", 2)
+	vAssume(text[6] != '\r' && text[6] != '\n' && text[7] != '\r' && text[7] != '\n')
+	w1.partialOn, w1.partialAt, w1.partialN = true, w1.writes, len("PRIVMSG #chan :")+vLen("cut", 1, 7)
+	conn.Privmsg("#chan", text)
+	vRunPending()
+	if conn.Connected() {
+		conn.Close() // (an implementation may survive the failed write; the property does not say)
+		vRunPending()
+	}
+	err = conn.Connect()
+	vAssume(err == nil)
+	vRunPending()
+	conn.Nick("newnick")
+	vRunPending()
+	all := ""
+	for _, x := range w2.written {
+		all += x
+	}
+	vAssert(len(all) > 0, "wrote-something")
+	vAssert(vWireTerminated(all), "wire-ends-with-crlf")
+	vAssert(!vWireBare(all), "no-crlf-in-line")
+	lines, _ := vSplitLines(all)
+	for _, l := range lines {
+		vAssert(vHasVerb(l, "NICK") || vHasVerb(l, "USER"), "own-verb")
+	}
 	conn.Close()
 	vRunPending()
 	vReach("end")
